@@ -272,3 +272,102 @@ fn block<const T0: u8, const T1: u8, const T2: u8, const K: usize>() {
 }
 // generated wrappers: see tools/gen_block_obligations.py
 include!(concat!(env!("H2_VERIF_DIR"), "/harness/hpack/decoder_block_wrappers.rs"));
+
+// ---------------------------------------------------------------------------
+// C11: the decoder's dynamic table against the RFC 7541 §4 list model
+// ---------------------------------------------------------------------------
+fn pool_header(sel: u8) -> (Header, usize, u32) {
+    // sizes per RFC 7541 §4.1: name + value + 32
+    match sel {
+        0 => (Header::Path(BytesStr::from_static("/")), 5 + 1 + 32, 1),
+        1 => (Header::Method(http::Method::GET), 7 + 3 + 32, 2),
+        _ => (Header::Path(BytesStr::from_static("/index.html")), 5 + 11 + 32, 3),
+    }
+}
+fn entry_code(h: &Header) -> u32 {
+    match h {
+        Header::Path(p) if p.as_str() == "/" => 1,
+        Header::Method(_) => 2,
+        Header::Path(_) => 3,
+        _ => 9,
+    }
+}
+
+/// Three operations, each an insertion of a pool entry (sizes 38/42/48) or a change
+/// of the maximum size (0..=140), compared step by step with the list model: entries
+/// are evicted from the end until the new one fits; an entry larger than the table
+/// empties it and is not added; lowering the maximum evicts; index 62+i resolves to the
+/// i-th newest entry and anything beyond is an error.
+pub fn c11_dyn_table_model() {
+    let max0: usize = kani::any();
+    kani::assume(max0 <= 140);
+    let mut t = Table::new(max0);
+    t.entries = VecDeque::with_capacity(8);
+    // model: newest first
+    let mut m_code = [0u32; 4];
+    let mut m_size = [0usize; 4];
+    let mut m_len = 0usize;
+    let mut m_total = 0usize;
+    let mut m_max = max0;
+    let mut step = 0;
+    while step < 3 {
+        let is_insert: bool = kani::any();
+        if is_insert {
+            let sel: u8 = kani::any();
+            kani::assume(sel < 3);
+            let (h, sz, code) = pool_header(sel);
+            assert!(h.len() == sz, "Header::len differs from RFC 7541 4.1 (name + value + 32)");
+            t.insert(h);
+            // model: evict from the end until it fits
+            while m_len > 0 && m_total + sz > m_max {
+                m_len -= 1;
+                m_total -= m_size[m_len];
+            }
+            if sz <= m_max {
+                let mut i = m_len;
+                while i > 0 {
+                    m_code[i] = m_code[i - 1];
+                    m_size[i] = m_size[i - 1];
+                    i -= 1;
+                }
+                m_code[0] = code;
+                m_size[0] = sz;
+                m_len += 1;
+                m_total += sz;
+            }
+        } else {
+            let nm: usize = kani::any();
+            kani::assume(nm <= 140);
+            t.set_max_size(nm);
+            m_max = nm;
+            while m_len > 0 && m_total > m_max {
+                m_len -= 1;
+                m_total -= m_size[m_len];
+            }
+        }
+        assert!(t.size == m_total, "C11: dynamic table size differs from the RFC 7541 model");
+        assert!(t.size <= t.max_size, "C11: dynamic table above its limit");
+        assert!(t.entries.len() == m_len, "C11: number of dynamic entries differs from the RFC 7541 model (stale or missing entries)");
+        step += 1;
+    }
+    // index space: 62 + i
+    let mut i = 0;
+    while i < 4 {
+        let r = t.get(62 + i);
+        if i < m_len {
+            match &r {
+                Ok(h) => assert!(entry_code(h) == m_code[i], "C11: dynamic index resolves to the wrong entry"),
+                Err(_) => panic!("C11: valid dynamic index rejected"),
+            }
+        } else {
+            assert!(matches!(&r, Err(DecoderError::InvalidTableIndex)), "C11: index beyond the dynamic table accepted");
+        }
+        std::mem::forget(r);
+        i += 1;
+    }
+    assert!(matches!(t.get(0), Err(DecoderError::InvalidTableIndex)));
+    kani::cover!(m_len == 3, "three_entries");
+    kani::cover!(m_len == 0 && m_max > 0, "emptied");
+    kani::cover!(true, "end");
+    std::mem::forget(t);
+}
